@@ -429,6 +429,15 @@ class Model:
         session.builtins["heappush"] = Builtin("heappush", self._heappush)
         session.builtins["perf_counter"] = Builtin("perf_counter", self._perf_counter)
         session.builtins["ceil"] = Builtin("ceil", self._ceil)
+        # hasattr(sim, "rt_start"): whether scheduler.run() (or an earlier caller) has given the simulator its real-time origin
+        # already -- a fact about the state before the call: an uninterpreted predicate, both cases are explored
+        self.rt_start_set = z3.Function("rt_start_already_set", Sim, B)
+
+        def _hasattr(it, node, obj, name):
+            if is_z3(obj) and obj.sort() == Sim and name == "rt_start":
+                return self.rt_start_set(obj)
+            raise Unsupported(f"hasattr(..., {name!r})")
+        session.builtins["hasattr"] = Builtin("hasattr", _hasattr)
         _set0 = session.builtins.get("set")
 
         def _set(it, node, *a2, **k2):
